@@ -266,9 +266,20 @@ func unsafeToPark() string {
 	}
 }
 
+// GoroutineConn returns the connection the calling goroutine was last seen working on (-1: none).
+func (s *Sim) GoroutineConn() int {
+	id := goid()
+	s.mu.Lock()
+	defer s.mu.Unlock()
+	if c, ok := s.goConn[id]; ok {
+		return c
+	}
+	return -1
+}
+
 // NoteGoroutineConn remembers which connection the calling goroutine works on.
 func (s *Sim) NoteGoroutineConn(conn int) {
-	if !s.Fine {
+	if !FineGrainedBuild {
 		return
 	}
 	id := goid()
@@ -440,6 +451,22 @@ func (s *Sim) Park(kind, actor string, conn int, info string, enabled func() boo
 	}
 	s.seq++
 	p.seq = s.seq
+	if s.StallMod > 0 && kind != "pt" && kind != "autolock" {
+		// fault kind "slow goroutine": decided by the parking goroutine's identity, the step and the run's salt only
+		// (who parks, where, at which step: the park sequence number depends on the order in which
+		// concurrently running goroutines arrive and would not replay)
+		f := fnv.New64a()
+		f.Write([]byte(actor))
+		f.Write([]byte(kind))
+		f.Write([]byte(info))
+		h := (f.Sum64() ^ uint64(conn+1)*0x9E3779B97F4A7C15 ^ uint64(s.Steps)*0xC2B2AE3D27D4EB4F ^ s.SiteSalt) * 0xD6E8FEB86659FD93
+		h ^= h >> 29
+		if h%s.StallMod == 0 {
+			p.StallUntil = s.Steps + 8 + int((h>>16)%150)
+			p.Info += " stalled"
+			s.Stats["fault.stalled_goroutine"]++
+		}
+	}
 	s.parked = append(s.parked, p)
 	s.mu.Unlock()
 	<-p.ch
@@ -530,6 +557,9 @@ func (s *Sim) enabled() []Action {
 		}
 	}
 	for _, p := range ps {
+		if p.Kind == "autolock" {
+			continue // released by releaseLockWaiters, never a scheduler choice
+		}
 		if p.Enabled != nil && !p.Enabled() {
 			continue
 		}
@@ -564,6 +594,7 @@ func (s *Sim) enabled() []Action {
 func (s *Sim) Run(stop func() bool) error {
 	for {
 		synctest.Wait()
+		s.releaseLockWaiters()
 		Progress.Add(1)
 		if s.OnQuiescent != nil {
 			if err := s.OnQuiescent(); err != nil {
@@ -593,6 +624,36 @@ func (s *Sim) Run(stop func() bool) error {
 			s.StepHook(a.Desc)
 		}
 		a.Do(arg)
+	}
+}
+
+// releaseLockWaiters lets the goroutines go on that wait at an automatic lock probe for a mutex
+// which is free by now. Whether a goroutine had to wait there depends on how concurrently
+// running goroutines happened to overlap, so these waits are no scheduler steps and are not
+// logged: the waiters go on one at a time, each until everything is quiescent again.
+func (s *Sim) releaseLockWaiters() {
+	for {
+		s.mu.Lock()
+		var pick *Parked
+		for _, p := range s.parked {
+			if p.Kind == "autolock" && p.Enabled() && (pick == nil || p.key() < pick.key()) {
+				pick = p
+			}
+		}
+		if pick != nil {
+			for i, q := range s.parked {
+				if q == pick {
+					s.parked = append(s.parked[:i], s.parked[i+1:]...)
+					break
+				}
+			}
+		}
+		s.mu.Unlock()
+		if pick == nil {
+			return
+		}
+		close(pick.ch)
+		synctest.Wait()
 	}
 }
 
